@@ -156,6 +156,16 @@ fn check_source_rule(view: &NodeView, ip: &Ip, pkt: &Packet) -> Result<(), Viola
         }
     }
     let src = &ip.src;
+    if let Some(L4::Udp(u)) = &pkt.l4 {
+        if view.dhcp && u.sport == 68 && u.dport == 67 && view.dhcp_leased_unapplied.contains(src) && !view.addrs.iter().any(|(a, _)| a == src) {
+            return Err(viol(
+                "C10",
+                "source",
+                "C10.source/dhcp-leased-address-before-the-application-applied-it",
+                format!("DHCP REQUEST sourced from the leased address {} in the same poll that ingested the ACK granting it; the interface's addresses are {:?}: {}", src, view.addrs, pkt.summary()),
+            ));
+        }
+    }
     if src.is_multicast() || src.is_limited_broadcast() || is_subnet_broadcast(view, src) {
         let what = match &pkt.l4 {
             Some(L4::Tcp(t)) if t.has(F_RST) => "tcp-rst",
